@@ -105,6 +105,7 @@ def check_C06(chk):
     c06d(chk)
     c06e(chk)
     f_statistic_formulas(chk)
+    cells_paired_with_frequencies(chk)
     for r, n in (("C06.a", 28), ("C06.b", 16), ("C06.c", 7), ("C06.d", 10), ("C06.e", 6)):
         chk.floor(r, n)
 
@@ -885,3 +886,31 @@ def f_statistic_formulas(chk):
             why = "per-cell term %s" % (got,)
         chk.ob("C06.e", "%s/per-cell-term" % nm, got is not None and got == want[nm], f.loc(),
                "%s sums %s over the cells: %s" % (nm, {"F2": "v (f0 - f1)^2", "F3": "v (f0 - f1)(f0 - f2)", "F4": "v (f0 - f1)(f2 - f3)"}[nm], why))
+
+
+def cells_paired_with_frequencies(chk):
+    """F2, F3, F4 and Fst walk the cells of the normalised spectrum together with the frequencies that belong to them: the values
+    (`sfs.array.iter()`) zipped with `sfs.iter_frequencies()` of the same spectrum, both in storage order - nothing that reorders or
+    shifts one side against the other (rev, skip on one side only, ..) in between"""
+    import iters as IT
+    prog = chk.prog
+    for nm in ("F2", "F3", "F4", "Fst"):
+        f = chk.fn(STAT + nm + "::from_sfs_unchecked")
+        if f is None:
+            continue
+        zs = [(b, t) for b, t in f.calls() if (t["callee"].get("path") or "") == "core::iter::traits::iterator::Iterator::zip"]
+        ok = False
+        why = "expected one zip of the values with iter_frequencies(), found %d zip call(s)" % len(zs)
+        if len(zs) == 1:
+            zb, zt = zs[0]
+            main = IT.receiver_chain(f, zt["args"][0])
+            side = IT.receiver_chain(f, zt["args"][1])
+            mn, sn = IT.chain_names(main), IT.chain_names(side)
+            def is_param_spectrum(pl):
+                return pl is not None and pl[0] == 1
+            vals = mn in (["iter"], ["iter", "inner"], ["iter", "as_slice", "inner"]) and is_param_spectrum(main[-1][1])
+            freqs = sn == ["iter_frequencies"] and is_param_spectrum(side[-1][1])
+            ok = vals and freqs
+            why = "values side %s over the spectrum=%s, frequencies side %s over the same spectrum=%s" % (mn, vals, sn, freqs)
+            chk.saw_calls()
+        chk.ob("C06.e", "%s/cells-paired-with-their-frequencies" % nm, ok, f.loc(), "each cell is weighted by its own frequencies: %s" % why)
